@@ -648,6 +648,10 @@ func (k *c16) RunCase(c *core.Ctx, i int) {
 	o.Accruals = i%3 == 2
 	j, info := gen.Accepted(r, o)
 	first := info.Dates[0]
+	if r.Intn(6) == 0 {
+		gen.ShiftFar(r, j, 4)
+		c.Count("journals_with_dates_beyond_2262", 1)
+	}
 
 	// a user-opened income account that coincides with a valuation mirror account
 	userOpened := map[string]bool{}
